@@ -516,6 +516,11 @@ class ExprMixin:
                 yield "ok", t, st
                 return
             if base[0] == "reg":
+                if ("gone", base[1], key) in st.hits:
+                    # the entry was deleted earlier on this very path and not stored again: a certain KeyError
+                    self.emit(st, fx, "LOOKUP", node, reg=base[1], key=key, addr=base[2], hit=False, how="getitem")
+                    yield "raise", self.exc(st, "KeyError", key), st
+                    return
                 known = (base[1], key) in st.hits or (isinstance(key, tuple) and key[0] == "keyof")
                 if not known:
                     s2 = st.fork()
